@@ -1,0 +1,267 @@
+//go:build verif
+
+// Contracts for the fvc verification-condition generator in /verif (comment-only file; it adds no code to the
+// package and is only seen with -tags verif).
+//
+// C04: an application that mounts sub-applications - at any nesting depth, from the app or from a group, before
+// or after sibling routes - answers every request exactly as an application in which the sub-applications'
+// routes and middleware were registered directly under a group with the mount prefix at the same position; the
+// same holds for Group/Route prefixes versus spelling the full path at registration.
+//
+// The statement quantifies over all programs (mount trees); that induction is NOT carried by these contracts. It
+// is checked, bounded, by /verif/bounded/c04_mount_equiv_test.go (labelled bounded, never counted as proved).
+// What is proved here is the kernel the equivalence rests on:
+//   1. prefix arithmetic: every registration through a Group / Route(...) / Use is ONE call of the direct
+//      registration function (*App).register with the path joinedPath(prefix, path) - the spelled-out path - on
+//      the group's own application (so never a mount marker); prefixes compose by joinedPath;
+//   2. cloning: copyRoute copies every field of Route (group is classified as registration-time only);
+//   3. re-prefixing: addPrefixToRoute gives the clone the fields that register computes for the prefixed path;
+//   4. the splice: processSubAppsRoutes replaces each mount marker by the prefixed clones of the sub-app's routes
+//      of the same method in a NEW array, keeps the tail that is still to be visited, leaves no marker behind and
+//      numbers the positions consecutively in stack order (buildTree sorts by position, next dispatches in that
+//      order: C01).
+//
+// Clauses of this property that belong into contracts owned by the C08 file (one contract per function; they
+// prove there, see the C04 report):
+//   getGroupPath:
+//     ensures [C04] trimmed-prefix-then-slash-path: len(path) > 0 ==> joinShape(prefix, path, result)
+//   (*App).mount:
+//     atcall (*App).register: [C04] marker-under-normalised-prefix: isTrimmed(last(@utils.TrimRight), old(prefix)) && (last(@utils.TrimRight) == "" ==> pathRaw == "/") && (last(@utils.TrimRight) != "" ==> pathRaw == last(@utils.TrimRight))
+//     atcall (*App).register: [C04] marker-of-the-sub-app: arg0 == app && group != nil && group.Prefix == pathRaw && group.app == old(subApp) && len(handlers) == 0 && len(methods) == 1 && methods[0] == "USE"
+//   (*Group).mount:
+//     atcall (*App).register: [C04] marker-under-normalised-joined-prefix: isTrimmed(last(@utils.TrimRight), joinedPath(old(grp.Prefix), old(prefix))) && (last(@utils.TrimRight) == "" ==> pathRaw == "/") && (last(@utils.TrimRight) != "" ==> pathRaw == last(@utils.TrimRight))
+//     atcall (*App).register: [C04] marker-of-the-sub-app: arg0 == grp.app && group != nil && group.Prefix == pathRaw && group.app == old(subApp) && len(handlers) == 0 && len(methods) == 1 && methods[0] == "USE"
+//
+// Obligations that fail on the code because the code violates the property (replay tests in /verif/replay/known):
+//   (*App).addPrefixToRoute/post:params-are-those-of-the-prefixed-path   c04_param_prefix_test.go
+//   (*App).addPrefixToRoute/post:star-as-registered                      c04_star_trailing_slash_test.go
+//   (*App).processSubAppsRoutes/atcall:(*App).copyRoute:sub-app-already-spliced
+//                                           c04_same_prefix_mounts_test.go, c04_root_in_root_test.go
+// (a fourth finding, c04_strict_bare_use_test.go, comes from the bounded stand-in only: it is about the path a
+// path-less Use(mw) is registered with, which no kernel function decides.)
+
+package fiber
+
+//@ props C04
+
+// ---- the documented meaning of a prefix ---------------------------------------------------------------
+// t is s without its trailing slashes.
+//@ macro isTrimmed(t, s) = len(t) <= len(s) && t == s[:len(t)] && (len(t) > 0 ==> t[len(t)-1] != '/') && forall(k, len(t), len(s), s[k] == '/')
+// r is `path` registered below `prefix`: the prefix without its trailing slashes, then the path with a leading
+// slash (n is where the path part starts). An empty path is the prefix itself (clause of the C08 contract).
+//@ macro joinShapeAt(prefix, path, r, n) = 0 <= n && n <= len(prefix) && len(r) >= n && r[:n] == prefix[:n] && (n > 0 ==> prefix[n-1] != '/') && forall(k, n, len(prefix), prefix[k] == '/') &&
+//@ ..   ((path[0] == '/' ==> r[n:] == path) && (path[0] != '/' ==> len(r) == n + 1 + len(path) && r[n] == '/' && r[n+1:] == path))
+//@ macro joinShape(prefix, path, r) = joinShapeAt(prefix, path, r, len(r) - len(path) - ite(path[0] == '/', 0, 1))
+
+// ---- what direct registration (register) computes from the registered path ---------------------------
+// The vocabulary is that of register's own contract (zz_contracts_c03_verif.go, clauses of `atcall (*App).addRoute`):
+//   pretty-is-normal-form          normalForm(CaseSensitive, StrictRouting, Path, pretty): case folded unless
+//                                  CaseSensitive, trailing slashes removed unless StrictRouting (a lone "/" stays)
+//   literal-path-unescaped-pretty  path == unescaped(pretty)              (RemoveEscapeChar)
+//   parser-of-pretty-path          routeParser.segs == segsOf(pretty, epoch)   (parseRoute, a function of the pattern)
+//   names-of-raw-path              Params == paramsOf(Path, epoch)
+//   star-flag, root-flag           star == (path == "/*"), root == (path == "/")
+// keyAsRegistered(app, r): the table key and the parser of r are those register computes for r.Path.
+//@ macro keyAsRegistered(app, r) = existsS(P, normalForm(app.config.CaseSensitive, app.config.StrictRouting, r.Path, P) && r.path == unescaped(P) &&
+//@ ..   r.routeParser.segs == segsOf(P, epoch) && r.routeParser.params == paramsOf(P, epoch))
+
+// ---- 2. cloning ------------------------------------------------------------------------------------------
+// Route has 13 fields ("always keep in sync with the copy method"): every one is classified here.
+//   copied:      path, Method, Name, Path, Params, Handlers, routeParser (4 fields), pos, use, mount, star, root
+//   not copied:  group - used at registration time only (Name prefix) and to find the sub-app of a mount marker;
+//                a clone has none, which is why a marker must never be cloned (processSubAppsRoutes).
+//@ func (*App).copyRoute pure fresh
+//@   ensures copied-path-data: result.path == route.path && result.Path == route.Path && result.Params == route.Params
+//@   ensures copied-parser: result.routeParser.segs == route.routeParser.segs && result.routeParser.params == route.routeParser.params && result.routeParser.wildCardCount == route.routeParser.wildCardCount && result.routeParser.plusCount == route.routeParser.plusCount
+//@   ensures copied-public-data: result.Method == route.Method && result.Name == route.Name && result.Handlers == route.Handlers
+//@   ensures copied-routing-data: result.pos == route.pos && result.use == route.use && result.mount == route.mount && result.star == route.star && result.root == route.root
+//@   ensures group-not-copied: result.group == nil
+//@   ensures a-new-route: result != nil && result != route
+
+// ---- 3. re-prefixing a clone -----------------------------------------------------------------------------
+// The clone gets the registered path joinedPath(prefix, Path) and, from it, exactly what register computes for a
+// route registered with that path: the table key, the parser, the parameter names, the shortcut flags.
+//   params-are-those-of-the-prefixed-path FAILS: Route.Params is not recomputed, a parameter in the mount prefix
+//     is lost and the others are shifted (Route.match/Params index the value array by Route.Params).
+//   star-as-registered FAILS: the flag is cleared although the key can still be "/*" (mount prefix "/"); matching
+//     then goes through the parser on the detection path and the wildcard value loses its trailing slash.
+//   root: the code clears the flag as well; for the key "/" Route.match falls through to comparisons that give
+//     the same answer (bounded stand-in, part E: no disagreement), so only soundness of the shortcut is demanded.
+//@ func (*App).addPrefixToRoute
+//@   requires route-given: route != nil
+// (frame: the five fields of the clone; the rest is the frame of parseRoute, which builds the parser in place)
+//@   modifies route.Path, route.path, fields(route.routeParser), route.root, route.star,
+//@ ..   routeParser.wildCardCount, routeParser.plusCount, heap(E_string), heap(E_p_fiber_Constraint), heap(E_p_fiber_routeSegment),
+//@ ..   routeSegment.ComparePart, routeSegment.Length, routeSegment.PartCount, routeSegment.HasOptionalSlash, routeSegment.IsLast
+//@   ensures same-route: result == route
+//@   ensures path-is-prefix-joined: route.Path == joinedPath(prefix, old(route.Path))
+//@   ensures key-as-registered: keyAsRegistered(app, route)
+//@   ensures root-shortcut-sound: route.root ==> route.path == "/"
+//@   ensures star-as-registered: route.star == (route.path == "/*")
+//@   ensures params-are-those-of-the-prefixed-path: route.Params == paramsOf(route.Path, epoch)
+
+// ---- 1. prefix arithmetic: registering through a group is registering the spelled-out path -----------------
+// What register demands of its caller (C03-owned precondition lock-free): the application mutex is not held.
+// OnGroup hooks receive a COPY of the new group; the group itself is not reachable by anyone before it is returned.
+//@ func (*Hooks).executeOnGroupHooks assumed pure
+
+// Group.Add (Get, Post, ... All go through it): ONE direct registration, on the group's application, of the path
+// joined to the group prefix, with the handler list handler :: handlers; the route is never a mount marker
+// (register makes a marker only for a group of ANOTHER application).
+//@ func (*Group).Add
+//@   requires group-of-an-app: grp.app != nil
+//@   requires not-under-the-app-lock: !held(grp.app.mutex)
+//@   atcall (*App).register: spelled-out-path: pathRaw == joinedPath(grp.Prefix, path)
+//@   atcall (*App).register: on-the-groups-app-not-a-marker: arg0 == grp.app && group == grp
+//@   atcall (*App).register: same-methods-and-handlers: arg1 == old(methods) && len(arg4) == 1 + len(old(handlers)) && arg4[0] == handler && forall(i, 0, len(old(handlers)), arg4[i+1] == old(handlers)[i])
+//@   ensures returns-the-group: unbox(result, *Group) == grp
+
+// Group.Use: every prefix of the call is either mounted (a sub-app was given: Group.mount gets the prefix as
+// written, relative to this group) or registered as middleware under the joined path.
+// What (*App).mount / (*Group).mount demand of the two applications (C08-owned preconditions, passed on to the
+// caller of Use). NOTE: joined-prefixes-distinct cannot be met by a sub-app mounted at "/" that has itself a
+// sub-app at "/" (joinedPath("/", "") == joinedPath("/", "/") == "/"): known finding key-collision.
+//@ macro mountable(app, sub) = app.mountFields != nil && app.mountFields.appList != nil && sub.mountFields != nil && sub.mountFields.appList != nil && app.mountFields.appList != sub.mountFields.appList &&
+//@ ..   forallS(a, forallS(b, indom(sub.mountFields.appList, a) && indom(sub.mountFields.appList, b) && a != b ==> forallS(p, joinedPath(p, a) != joinedPath(p, b))))
+//@ func (*Group).Use
+//@   panics
+//@   requires group-of-an-app: grp.app != nil
+//@   requires sub-apps-mountable: forall(i, 0, len(args), typeis(args[i], *App) && as(args[i], *App) != nil ==> mountable(grp.app, as(args[i], *App)))
+// (register has no frame: after the first registration of a call with several prefixes nothing is known about
+// grp.app any more, so the lock precondition of the next registration is shown from "the caller holds no lock at all")
+//@   requires holds-no-lock: forallI(l, !held(l))
+//@   loop 1
+//@     invariant chosen-sub-app-mountable: subApp != nil ==> grp.app != nil && mountable(grp.app, subApp)
+//@   loop 2
+//@     invariant chosen-sub-app-mountable: subApp != nil ==> grp.app != nil && mountable(grp.app, subApp)
+//@   atcall (*App).register: spelled-out-path: pathRaw == joinedPath(grp.Prefix, prefix)
+//@   atcall (*App).register: middleware-on-the-groups-app: arg0 == grp.app && group == grp && len(methods) == 1 && methods[0] == "USE" && subApp == nil
+//@   atcall (*Group).mount: mounted-relative-to-this-group: arg0 == grp && arg2 == subApp && subApp != nil
+//@   ensures returns-the-group: unbox(result, *Group) == grp
+
+// Group.Group: the sub-group's prefix is the joined prefix (so prefixes compose by joinedPath), on the same
+// application; its middleware is registered under that prefix.
+//@ func (*Group).Group
+//@   panics
+//@   requires group-of-an-app: grp.app != nil
+//@   requires not-under-the-app-lock: !held(grp.app.mutex)
+//@   atcall (*App).register: spelled-out-path: pathRaw == joinedPath(grp.Prefix, old(prefix)) && arg0 == grp.app && len(methods) == 1 && methods[0] == "USE" && arg4 == old(handlers)
+//@   ensures sub-group-under-joined-prefix: unbox(result, *Group) != grp && unbox(result, *Group).Prefix == joinedPath(old(grp.Prefix), prefix)
+//@   ensures same-application: unbox(result, *Group).app == grp.app && unbox(result, *Group).parentGroup == grp
+
+// Group.Route / Registering.Route: the same composition for the Route(...) API.
+//@ func (*Group).Route
+//@   ensures registers-under-joined-prefix: unbox(result, *Registering).path == joinedPath(grp.Prefix, path) && unbox(result, *Registering).app == grp.app
+//@ func (*Registering).Route
+//@   ensures registers-under-joined-prefix: unbox(result, *Registering).path == joinedPath(r.path, path) && unbox(result, *Registering).app == r.app
+//@ func (*App).Route
+//@   ensures registers-under-the-path: unbox(result, *Registering).path == path && unbox(result, *Registering).app == app
+
+// Registering.Add (Head, Post, ... go through it) and All: ONE direct registration of the accumulated path.
+//@ func (*Registering).Add
+//@   requires not-under-the-app-lock: !held(r.app.mutex)
+//@   atcall (*App).register: accumulated-path: pathRaw == r.path && arg0 == r.app && group == nil
+//@   atcall (*App).register: same-methods-and-handlers: arg1 == old(methods) && len(arg4) == 1 + len(old(handlers)) && arg4[0] == handler && forall(i, 0, len(old(handlers)), arg4[i+1] == old(handlers)[i])
+//@ func (*Registering).All
+//@   requires not-under-the-app-lock: !held(r.app.mutex)
+//@   atcall (*App).register: accumulated-path: pathRaw == r.path && arg0 == r.app && group == nil && len(methods) == 1 && methods[0] == "USE"
+//@   atcall (*App).register: same-handlers: len(arg4) == 1 + len(old(handlers)) && arg4[0] == handler && forall(i, 0, len(old(handlers)), arg4[i+1] == old(handlers)[i])
+//@ func (*Registering).Get
+//@   requires not-under-the-app-lock: !held(r.app.mutex)
+//@   atcall (*App).Add: accumulated-path: path == r.path && arg0 == r.app && len(methods) == 1 && methods[0] == "GET" && arg3 == old(handler) && arg4 == old(handlers)
+
+// The application itself: the direct registration that the twin application of the property uses.
+//@ func (*App).Add
+//@   requires not-under-the-app-lock: !held(app.mutex)
+//@   atcall (*App).register: the-path-as-written: pathRaw == old(path) && arg0 == app && group == nil
+//@   atcall (*App).register: same-methods-and-handlers: arg1 == old(methods) && len(arg4) == 1 + len(old(handlers)) && arg4[0] == handler && forall(i, 0, len(old(handlers)), arg4[i+1] == old(handlers)[i])
+//@ func (*App).Group
+//@   panics
+//@   requires not-under-the-app-lock: !held(app.mutex)
+//@   atcall (*App).register: middleware-under-the-prefix: pathRaw == old(prefix) && arg0 == app && group.Prefix == old(prefix) && group.app == app && len(methods) == 1 && methods[0] == "USE" && arg4 == old(handlers)
+//@   ensures group-with-the-prefix: len(handlers) == 0 ==> unbox(result, *Group).Prefix == prefix && unbox(result, *Group).app == app && unbox(result, *Group).parentGroup == nil
+//@ func (*App).Use
+//@   panics
+//@   requires not-under-the-app-lock: !held(app.mutex)
+//@   requires sub-apps-mountable: forall(i, 0, len(args), typeis(args[i], *App) && as(args[i], *App) != nil ==> mountable(app, as(args[i], *App)))
+//@   loop 1
+//@     invariant chosen-sub-app-mountable: subApp != nil ==> mountable(app, subApp)
+//@   loop 2
+//@     invariant chosen-sub-app-mountable: subApp != nil ==> mountable(app, subApp)
+//@   atcall (*App).register: the-prefix-as-written: pathRaw == prefix && arg0 == app && group == nil && len(methods) == 1 && methods[0] == "USE" && subApp == nil
+//@   atcall (*App).mount: mounted-under-the-prefix: arg0 == app && arg2 == subApp && subApp != nil
+
+// ---- 4. the splice ------------------------------------------------------------------------------------------
+//@ macro noMarkers(a) = forall(mm, 0, len(a.stack), forall(ii, 0, len(a.stack[mm]), !a.stack[mm][ii].mount))
+// A mount marker leads to its sub-application: another application with a stack table of its own, one stack per
+// method of THIS application (register makes a marker only for a group of another application).
+//@ macro markerWf(app, r) = r.group != nil && r.group.app != nil && r.group.app != app && len(r.group.app.stack) == len(app.stack) && arr(r.group.app.stack) != arr(app.stack)
+//@ macro elemWf(app, r) = r != nil && allocated(r) && (r.mount ==> markerWf(app, r))
+//@ macro tablesWf(app) = forall(mm, 0, len(app.stack), (len(app.stack[mm]) > 0 ==> allocated(arr(app.stack[mm]))) && forall(ii, 0, len(app.stack[mm]), elemWf(app, app.stack[mm][ii])))
+// no route object occurs twice in one stack (register appends a new Route per method, clones are new objects)
+//@ macro distinctIn(s) = forall(bb, 0, len(s), forall(aa, 0, bb, s[aa] != s[bb]))
+// ... nor in two stacks
+//@ macro stacksDisjoint(app) = forall(m1, 0, len(app.stack), forall(m2, 0, m1, forall(aa, 0, len(app.stack[m1]), forall(bb, 0, len(app.stack[m2]), app.stack[m1][aa] != app.stack[m2][bb]))))
+//@ macro routesDistinct(app) = forall(mm, 0, len(app.stack), distinctIn(app.stack[mm])) && stacksDisjoint(app)
+// positions are numbered consecutively in stack order (uint32 counter: strictly increasing unless it wraps)
+//@ macro consecutive(s, n) = forall(kk, 1, n, s[kk].pos == (s[kk-1].pos + 1) % 4294967296)
+
+// the arrays that held the stacks at entry are never written (a splice builds a new array)
+//@ macro entryKept(app) = forall(mm, 0, len(app.stack), forall(ii, 0, old(len(app.stack[mm])), old(app.stack[mm])[ii] == old(app.stack[mm][ii])))
+
+//@ func (*App).hasMountedApps
+//@   pure
+
+// The recursive splice of a sub-application (induction hypothesis over the mount tree, ASSUMED: the contracts do not
+// carry the induction): it writes the sub-application's own tables and route positions only, and leaves no marker.
+//@ func (*App).processSubAppsRoutes$1 assumed
+//@   modifies elems(subApp.stack), Route.pos, App.routesCount, App.handlersCount, App.routesRefreshed
+//@   ensures sub-app-spliced: noMarkers(subApp)
+
+//@ func (*App).processSubAppsRoutes
+//@   requires mount-list: app.mountFields != nil
+//@   requires tables-wf: tablesWf(app)
+//@   requires routes-distinct: routesDistinct(app)
+//@   requires listed-apps-have-their-own-tables: forallS(k, indom(app.mountFields.appList, k) && k != "" ==> app.mountFields.appList[k] != nil && app.mountFields.appList[k].mountFields != nil && arr(app.mountFields.appList[k].stack) != arr(app.stack))
+//@   loop 1
+//@     invariant tables-wf: tablesWf(app)
+//@     invariant routes-distinct: routesDistinct(app)
+//@     invariant stacks-untouched: forall(mm, 0, len(app.stack), app.stack[mm] == old(app.stack[mm]))
+//@     invariant entry-arrays-untouched: entryKept(app)
+//@     invariant listed-apps-have-their-own-tables: forallS(k, indom(app.mountFields.appList, k) && k != "" ==> app.mountFields.appList[k] != nil && app.mountFields.appList[k].mountFields != nil && arr(app.mountFields.appList[k].stack) != arr(app.stack))
+//@   loop 2
+//@     invariant tables-wf: tablesWf(app)
+//@     invariant routes-distinct: routesDistinct(app)
+//@     invariant later-stacks-untouched: forall(mm, rangeindex + 1, len(app.stack), app.stack[mm] == old(app.stack[mm]))
+//@     invariant entry-arrays-untouched: entryKept(app)
+//@     invariant done-stacks-have-no-marker: forall(mm, 0, rangeindex + 1, forall(ii, 0, len(app.stack[mm]), !app.stack[mm][ii].mount))
+//@     invariant done-stacks-numbered: forall(mm, 0, rangeindex + 1, consecutive(app.stack[mm], len(app.stack[mm])))
+//@   loop 3
+//@     invariant tables-wf: tablesWf(app)
+//@     invariant routes-distinct: routesDistinct(app)
+//@     invariant later-stacks-untouched: forall(mm, m + 1, len(app.stack), app.stack[mm] == old(app.stack[mm]))
+//@     invariant entry-arrays-untouched: entryKept(app)
+//@     invariant tail-is-the-entry-tail: forall(kk, i, stackLen, wasAllocated(app.stack[m][kk]) ==> kk - stackLen + old(len(app.stack[m])) >= 0 && app.stack[m][kk] == old(app.stack[m])[kk - stackLen + old(len(app.stack[m]))])
+//@     invariant clones-pending-then-entry-tail: forall(aa, i, stackLen, forall(bb, aa, stackLen, wasAllocated(app.stack[m][aa]) ==> wasAllocated(app.stack[m][bb])))
+//@     invariant pending-clones-are-no-marker: forall(kk, i, stackLen, !wasAllocated(app.stack[m][kk]) ==> !app.stack[m][kk].mount)
+//@     invariant length: stackLen == len(app.stack[m]) && 0 <= i && i <= stackLen && 0 <= m && m < len(app.stack)
+//@     invariant done-stacks-have-no-marker: forall(mm, 0, m, forall(ii, 0, len(app.stack[mm]), !app.stack[mm][ii].mount))
+//@     invariant done-stacks-numbered: forall(mm, 0, m, consecutive(app.stack[mm], len(app.stack[mm])))
+//@     invariant done-routes-are-no-marker: forall(ii, 0, i, !app.stack[m][ii].mount)
+//@     invariant done-routes-numbered: consecutive(app.stack[m], i) && (i > 0 ==> app.stack[m][i-1].pos == routePos)
+//@   loop 4
+//@     invariant tables-wf: tablesWf(app)
+//@     invariant routes-distinct: routesDistinct(app)
+//@     invariant later-stacks-untouched: forall(mm, m + 1, len(app.stack), app.stack[mm] == old(app.stack[mm]))
+//@     invariant entry-arrays-untouched: entryKept(app)
+//@     invariant tail-is-the-entry-tail: forall(kk, i, stackLen, app.stack[m][kk] == old(app.stack[m])[kk - stackLen + old(len(app.stack[m]))])
+//@     invariant clones-so-far: forall(jj, 0, rangeindex + 1, subRoutes[jj] != nil && allocated(subRoutes[jj]) && !wasAllocated(subRoutes[jj]) && !subRoutes[jj].mount)
+//@     invariant clones-distinct: forall(bb, 0, rangeindex + 1, forall(aa, 0, bb, subRoutes[aa] != subRoutes[bb]))
+//@     invariant clones-are-new: forall(jj, 0, rangeindex + 1, forall(mm, 0, len(app.stack), forall(ii, 0, len(app.stack[mm]), subRoutes[jj] != app.stack[mm][ii])))
+//@     invariant clones-are-prefixed-copies: forall(jj, 0, rangeindex + 1, (route.group.app.stack[m][jj] == nil || allocated(route.group.app.stack[m][jj])) &&
+//@ ..      subRoutes[jj].Handlers == route.group.app.stack[m][jj].Handlers && subRoutes[jj].use == route.group.app.stack[m][jj].use && subRoutes[jj].Method == route.group.app.stack[m][jj].Method &&
+//@ ..      subRoutes[jj].Path == joinedPath(route.path, route.group.app.stack[m][jj].Path))
+//@   atcall (*App).addPrefixToRoute: prefix-is-the-markers-key: prefix == app.stack[m][i].path && app.stack[m][i].mount && arg2 == last((*App).copyRoute)
+//@   atcall (*App).copyRoute: sub-app-already-spliced: !subAppRoute.mount
+//@   ensures no-marker-left: noMarkers(app)
+//@   ensures positions-consecutive-in-stack-order: forall(mm, 0, len(app.stack), consecutive(app.stack[mm], len(app.stack[mm])))
